@@ -22,7 +22,7 @@ RULE = ("size: ~150 shapes whose nesting depth or length grows without bound (ne
         "boundary values +-1 x bad digits); for ~300 grammar-derived programs and the tests.sh corpus every character "
         "prefix, single-character deletion, adjacent swap, NUL insertion, and token deletion/duplication/swap; random "
         "byte soup; run-time failure at every pull index k; the same texts through zw_query_parse (NUL-terminated) "
-        "where NUL-free; a sample through the dwgrep CLI (-e, -f, positional); libFuzzer campaign.  Non-trivial: the "
+        "where NUL-free; a sample through the dwgrep CLI (-e, -f, positional); libFuzzer campaign; histories of 20-60 parses in one process (inputs around every limit the parser enforces, rejected inputs of every rule, accepted ones), each verdict and message compared with that of a process that has parsed nothing else.  Non-trivial: the "
         "input is rejected by a rule other than the catch-all `Invalid character', or accepted with >= 3 tokens.  "
         "Distinct by input bytes.")
 
@@ -182,6 +182,79 @@ def work_mut(task):
                 ev.sample({"base": text.decode("latin-1")[:120], "mutations": len(mutations(text, rnd))})
     finally:
         drv.kill()
+    return ev
+
+
+def verdict_pool(rnd):
+    """Texts for the history tier: inputs around every limit the parser enforces (rejected one level beyond,
+    accepted one level before), ordinary rejected inputs of every rule, ordinary accepted ones."""
+    pool = [splice_nest(n).encode() for n in (1, 50, 96, 97, 98, 99, 99, 99, 100, 100, 101, 150, 300)]
+    pool += [b"1", b"", b"1 2 add", b'"%( 1 %)"', b"[1, 2] elem", b"(", b")", b'"abc', b"let A := 1; let A := 2;", b"foo", b"1 %", b'"%( ( %)"',
+             b'"%( 1 %) %( [ %)"', b"0x", b"99999999999999999999999", b'let "x" := 1;', b"1 /* x", b'"\\', b'"%( "%( "%( ) %)" %)" %)"',
+             nest("(", "1", ")", 300).encode(), nest("[", "1", "]", 300).encode(), b"(" * 300, b"1" + b")" * 50]
+    g = G.Gen(rnd, G.Cfg(max_depth=2, soft=0.1))
+    for _ in range(6):
+        node, _ = g.program()
+        t = render(node).encode("latin-1")
+        pool.append(t)
+        pool += rnd.sample(mutations(t, rnd), 4)
+    return pool
+
+
+_fresh = {}
+
+
+def fresh_verdict(text):
+    """(accepted?, message) of TEXT when it is the first thing a process parses."""
+    if text not in _fresh:
+        d = Driver()
+        try:
+            r = d.run(text, flags=8, limit=1, steps=1000)
+            _fresh[text] = ("cerror" not in r, r.get("cerror"))
+        except (DriverCrash, DriverTimeout):
+            _fresh[text] = None
+        finally:
+            d.kill()
+    return _fresh[text]
+
+
+def work_history(task):
+    """Whether a byte string compiles is a property of the byte string: sequences of 20-60 parses in one process, each
+    verdict (and message) compared with the verdict the same bytes get from a process that has parsed nothing else."""
+    seed, start, count = task
+    ev = Evidence()
+    for i in range(start, start + count):
+        if len(ev.violations) >= 10:
+            break
+        rnd = random.Random((seed << 32) ^ (i * 2654435761 & 0xffffffff) ^ 0x14A)
+        pool = verdict_pool(rnd)
+        seq = [rnd.choice(pool) for _ in range(rnd.randint(20, 60))]
+        drv = Driver()
+        try:
+            nrej = 0
+            for k, text in enumerate(seq):
+                try:
+                    r = drv.run(text, flags=8, limit=1, steps=1000)
+                except (DriverCrash, DriverTimeout) as e:
+                    ev.violations.append({"property": PID, "input_hex": text.hex(), "query": text.decode("latin-1")[:300],
+                                          "reason": "crash or hang as parse #%d of a sequence: %s" % (k, str(e)[-1500:]), "signature": "C14:hist-crash:" + text.hex()[:80]})
+                    break
+                got = ("cerror" not in r, r.get("cerror"))
+                want = fresh_verdict(text)
+                if want is None:
+                    continue
+                ev.case(key=("hist", i, k), nontrivial=nrej >= 1)
+                ev.label("history-parse")
+                if not got[0]:
+                    nrej += 1
+                if got != want:
+                    ev.violations.append({"property": PID, "input_hex": text.hex(), "query": text.decode("latin-1")[:300],
+                                          "history": [t.decode("latin-1")[:80] for t in seq[:k]][-12:], "signature": "C14:hist:" + text.hex()[:80],
+                                          "reason": "as parse #%d of a sequence (after %d rejections) the input is %s (%r); parsed first in a process it is %s (%r)"
+                                          % (k, nrej, "accepted" if got[0] else "rejected", got[1], "accepted" if want[0] else "rejected", want[1])})
+                    break
+        finally:
+            drv.kill()
     return ev
 
 
@@ -444,6 +517,9 @@ def main(tier, seed):
     per = max(5, nprog // 48)
     ev.merge(run_pool(work_mut, [(seed, s, min(per, nprog - s)) for s in range(0, nprog, per)]))
     ev.merge(work_runtime(None))
+    nh = 48 if tier == "quick" else 1500
+    ev.merge(run_pool(work_history, [(seed, s_, 2) for s_ in range(0, nh, 2)]))
+    ev.extra["parse_histories"] = nh
     ncli = 81 if tier == "quick" else 81 * 4
     ev.merge(run_pool(work_cli, [(seed, s, min(9, ncli - s)) for s in range(0, ncli, 9)]))
     # libFuzzer: the contract checks are inside the target.
@@ -475,7 +551,7 @@ def main(tier, seed):
                   health={"rejections by several rules seen": sum(1 for k in ev.labels if k.startswith("reject:")) >= 5,
                           "accepted inputs seen": ev.labels.get("accepted", 0) > 100,
                           "runtime failures seen": ev.labels.get("runtime-failure-at-pull", 0) > 0,
-                          "fuzzer ran": res["stats"].get("execs", 0) > 0,
+                          "fuzzer ran": res["stats"].get("execs", 0) > 0, "parse histories": ev.labels.get("history-parse", 0) > 1000,
                           "deep/long shapes both accepted and rejected": ev.labels.get("scale:accepted", 0) > 20 and ev.labels.get("scale:reject", 0) > 20})
 
 
